@@ -116,7 +116,11 @@ func genKeySpec(t *rapid.T) keySpec {
 	switch rapid.IntRange(0, 9).Draw(t, "ktyclass") {
 	case 0:
 		k.Kty = 4
-		k.SymK = rapid.SliceOfN(rapid.Byte(), 1, 40).Draw(t, "symk")
+		n := rapid.SampledFrom([]int{1, 16, 24, 32, 32, 48, 64, 65, -1}).Draw(t, "symk-len")
+		if n < 0 {
+			n = rapid.IntRange(1, 40).Draw(t, "symk-anylen")
+		}
+		k.SymK = rapid.SliceOfN(rapid.Byte(), n, n).Draw(t, "symk")
 	case 1:
 		k.Kty = rapid.SampledFrom([]int64{3, 5, 6, 100, -1}).Draw(t, "customkty")
 	case 2, 3, 4:
